@@ -34,7 +34,7 @@ CHUNK = 10
 def program_sets(tier):
     return [("gen", dict()),
             # rich signatures (positional-only, defaults, *rest, keyword-only, **kw, docstring) on small programs
-            ("sig", dict(size=1 if tier == "quick" else 2, sigs=("rich", "kwonly", "doc"), key=("c01sig", tier)))]
+            ("sig", dict(size=1 if tier == "quick" else 2, sigs=("rich", "kwonly", "doc", "closure-default"), key=("c01sig", tier)))]
 
 
 def units(tier):
